@@ -25,6 +25,8 @@ class Rd:
 
 def parse_request(line):
     ws = line.split()
+    if ws and ws[0] not in ("plan", "sets"):
+        return {"op": ws[0], "raw": ws, "sets": []}
     op, r = ws[0], Rd([int(x) for x in ws[1:]])
     order = r.many(r.nat)
 
@@ -403,14 +405,45 @@ def oracle_c10(case, reply):
     return ["well-formed program rejected: " + reply[:300]]
 
 
-ORACLES = {"C02": oracle_c02, "C05": oracle_c05, "C06": oracle_c06, "C07": oracle_c07,
+def oracle_c09(case, reply):
+    """case = raw request words for sig/dupparam streams"""
+    ws = case["raw"]
+    if ws[0] == "sig":
+        ks = [int(x) for x in ws[1:]]
+        n = len(ks)
+        if n == 0:
+            want = "err noreturn"
+        elif n == 1:
+            want = "ok 00"
+        elif n == 2:
+            want = {1: "ok 01", 2: "ok 10"}.get(ks[1], "err second")
+        elif n == 3:
+            want = "err second" if ks[1] != 2 else ("err third" if ks[2] != 1 else "ok 11")
+        else:
+            want = "err toomany"
+        if reply.startswith("ok") != want.startswith("ok"):
+            return ["result list %s: %s, the rules say %s" % (ks, reply, want)]
+        if reply.startswith("ok") and reply != want:
+            return ["result list %s: flags %s, expected %s" % (ks, reply, want)]
+        return []
+    if ws[0] == "dupparam":
+        ts = ws[1:]
+        dup = len(set(ts)) != len(ts)
+        if dup and reply.startswith("ok"):
+            return ["parameter list %s with identical types accepted" % ts]
+        if not dup and not reply.startswith("ok"):
+            return ["parameter list %s without duplicates rejected: %s" % (ts, reply)]
+    return []
+
+
+ORACLES = {"C09": oracle_c09, "C02": oracle_c02, "C05": oracle_c05, "C06": oracle_c06, "C07": oracle_c07,
            "C08": oracle_c08, "C10": oracle_c10, "C11": oracle_c11}
 
 
 # ---- projections: which part of a reply a property's correspondence compares --------------
 
 def project(prop, reply):
-    if prop in ("C02", "C10", "C11"):
+    if prop in ("C02", "C10", "C11", "C09", "C14", "C16", "C12", "C13", "C15", "C17", "C19", "C20", "C01"):
         return reply
     parts = []
     for part in reply.split(" | "):
